@@ -34,6 +34,22 @@ def assert_condition(n):
     return None
 
 
+def any_assert_condition(n):
+    """The asserted condition of a release OR debug assertion statement (the NDEBUG form keeps it as the operand of
+    sizeof), else None."""
+    c = assert_condition(n)
+    if c is not None:
+        return c
+    if n["kind"] == "DoStmt" and kids(n):
+        body = kids(n)[0]
+        st = kids(body) if body["kind"] == "CompoundStmt" else [body]
+        if len(st) == 1 and _is_void_sizeof(st[0]):
+            for x in walk(st[0]):
+                if x["kind"] == "UnaryExprOrTypeTraitExpr" and kids(x):
+                    return kids(x)[0]
+    return None
+
+
 def _is_void_sizeof(n):
     c = strip(n, casts=True)
     return c["kind"] == "UnaryExprOrTypeTraitExpr" or n["kind"] == "NullStmt"
